@@ -24,7 +24,7 @@ RULE = (
     "= decoder transform data; header values, picture numbers and data-unit codes are compared"
 )
 BOUNDS = {
-    "quick": "8 fixtures (HQ lossy/lossless, LD, fragments, asymmetric, slice_size_scaler 2); per picture/fragment unit 8 seeded single symbolic bytes (transform parameters, slice qindex/length fields, payload) and one seeded 2-byte window on 3 fixtures",
+    "quick": "10 fixtures (HQ lossy/lossless, LD, fragments, asymmetric, slice_size_scaler 2, transform parameters changing between pictures); per picture/fragment unit 8 seeded single symbolic bytes (transform parameters, slice qindex/length fields, payload) and one seeded 2-byte window on 3 fixtures",
     "thorough": "10 fixtures; every single byte and every third 2-byte window of each picture/fragment unit, 3-byte windows every 7 bytes",
 }
 OUTSIDE = "more than 3 symbolic payload bytes per exploration (entropy-coded data forks per exp-Golomb bit); rejected streams"
@@ -35,7 +35,7 @@ ENGINE_OPTS = {"max_decisions": 20000}
 REPLAYS_PER_LABEL = 2
 IFCONV = ["write_bit"]
 
-FIX_Q = ["hq_min", "hq_lossless", "ld_min", "hq_frag", "ld_frag", "hq_asym", "hq_tiny_lossless", "hq_scaler2"]
+FIX_Q = ["hq_min", "hq_lossless", "ld_min", "hq_frag", "ld_frag", "hq_asym", "hq_tiny_lossless", "hq_scaler2", "hq_asym_then_sym", "hq_params_change"]
 PAIR_FIXTURES = ["hq_min", "ld_min", "hq_tiny_lossless"]
 FIX_T = FIX_Q + ["hq_fields", "hq_420", "hq_tiny"]
 
